@@ -22,7 +22,7 @@ macro_rules! props {
             // thorough tier: sized so that a check takes roughly 5-20 min on 16 cores
             let tmult: u64 = match id {
                 "C01" => 15, "C04" => 2, "C05" => 3, "C07" => 8, "C08" => 3, "C10" => 6, "C11" => 6, "C13" => 12,
-                "C15" => 5, "C16" => 15, "C17" => 20, "C18" => 12, "C19" => 25, "C20" => 2, _ => 1,
+                "C15" => 5, "C16" => 15, "C17" => 20, "C18" => 5, "C19" => 25, "C20" => 2, _ => 1,
             };
             for s in d.subs.iter_mut() {
                 if let crate::runner::Kind::Tape { quick, thorough, .. } = &mut s.kind {
